@@ -221,7 +221,7 @@ func runPileHistory(ops []string, drv *hx.Driver, res *hx.Result) pileVerdict {
 			for {
 				// wait until the call returns or parks in Mutex.Lock
 				var got string
-				deadline := time.Now().Add(20 * time.Second)
+				deadline := time.Now().Add(hx.ScaledTimeout(20 * time.Second))
 				for got == "" {
 					select {
 					case got = <-w.results:
